@@ -9,10 +9,19 @@ def part(name, pkg, test, **kw):
 PROPS = {
     "C01": {"level": "exploration", "parts": [part("dump", "stack", "TestVerifC01")]},
     "C02": {"level": "model_checking", "parts": [part("bfs", "stack", "TestVerifC02")]},
+    "C03": {"level": "exploration", "parts": [part("bfs", "stack", "TestVerifC03"), part("edits", "stack", "TestVerifC03")]},
     "C04": {"level": "exploration", "parts": [part("agg", "stack", "TestVerifC04")]},
     "C05": {"level": "exploration", "parts": [part("agg", "stack", "TestVerifC05")]},
     "C13": {"level": "exploration", "parts": [part("order", "stack", "TestVerifC13")]},
     "C07": {"level": "model_checking", "parts": [part("bfs", "stack", "TestVerifC07")]},
     "C08": {"level": "exploration", "parts": [part("race", "stack", "TestVerifC08")]},
+    "C09": {"level": "model_checking", "parts": [
+        part("a4", "stack", "TestVerifC09", variant="smallbuf-4"),
+        part("a8", "stack", "TestVerifC09", variant="smallbuf-8"),
+        part("b", "stack", "TestVerifC09", variant="smallbuf-64"),
+        part("c", "stack", "TestVerifC09")]},
+    "C10": {"level": "fault_enumeration", "parts": [
+        part("real", "stack", "TestVerifC10"),
+        part("small", "stack", "TestVerifC10", variant="smallbuf-64")]},
     "C12": {"level": "exploration", "parts": [part("agg", "stack", "TestVerifC12")]},
 }
